@@ -210,6 +210,21 @@ func checkC06(c CaseC06, info *Info) *Failure {
 		if !reflect.DeepEqual(map[string]interface{}(back), c.Map) {
 			return failf("round-trip-mismatch", "json %q\n got  %#v\n want %#v", b, back, c.Map)
 		}
+		// the reader forms (their own object scanner in front of the decoder) see the same document
+		if len(c.Map) > 0 {
+			if rb, rerr := mxj.NewMapJsonReader(plainReader{bytes.NewReader(b)}); rerr != nil || !reflect.DeepEqual(map[string]interface{}(rb), c.Map) {
+				return failf("round-trip-mismatch", "NewMapJsonReader(%q) = %#v (%v) want %#v", b, rb, rerr, c.Map)
+			}
+			rb, raw, rerr := mxj.NewMapJsonReaderRaw(bytes.NewReader(append(append([]byte(" \n"), b...), " {}"...)))
+			if rerr != nil || !reflect.DeepEqual(map[string]interface{}(rb), c.Map) || !bytes.Equal(stripWS(raw), stripWS(b)) {
+				return failf("round-trip-mismatch", "NewMapJsonReaderRaw(%q) = %#v, raw %q (%v) want %#v", b, rb, raw, rerr, c.Map)
+			}
+			var seen []mxj.Map
+			herr := mxj.HandleJsonReader(bytes.NewReader(append(append(append([]byte(nil), b...), '\n'), b...)), func(m mxj.Map) bool { seen = append(seen, m); return true }, func(error) bool { return false })
+			if herr != nil || len(seen) != 2 || !reflect.DeepEqual(map[string]interface{}(seen[0]), c.Map) || !reflect.DeepEqual(map[string]interface{}(seen[1]), c.Map) {
+				return failf("round-trip-mismatch", "HandleJsonReader on %q twice: %d Maps (%v): %#v", b, len(seen), herr, seen)
+			}
+		}
 		want, lit := countSpecials(c.Map)
 		got := bytes.Count(b, []byte("<")) + bytes.Count(b, []byte(">")) + bytes.Count(b, []byte("&"))
 		if c.Safe && got != 0 {
